@@ -579,7 +579,7 @@ func fault(rep *report.Report, name string, dl time.Time) {
 			// the test shuffles its operations: it is run under every permutation and must fail under at least
 			// one (under the dependency order a fault on forward references cannot show)
 			perms, bad := 0, 0
-			res := mc.DFS(mc.SchedConfig{Name: "fault-shuffle", Bound: 0, SwitchCost: 1, Deadline: dl, MaxSteps: 5000000, Body: func() {
+			res := mc.DFS(mc.SchedConfig{Name: "fault-shuffle", NoStateCache: true, Bound: 0, SwitchCost: 1, Deadline: dl, MaxSteps: 5000000, Body: func() {
 				w := newWorld(cfg)
 				rt.Emit("verdict", w.runTest(tt))
 			}, Check: func(x *rt.Exec) []mc.Fail {
